@@ -84,9 +84,9 @@ def coinstate_digest(cs):
 class World:
     """Holds every block built so far (the *universe* reference ledger), named transactions and labelled blocks."""
 
-    def __init__(self, cfg=None):
+    def __init__(self, cfg=None, uni=None):
         self.cfg = cfg or R.Config()
-        self.uni = R.RefLedger(GENESIS, self.cfg)
+        self.uni = uni or R.RefLedger(GENESIS, self.cfg)
         self.blocks = {"g": self.uni.genesis.blk}
         self.txs = {"g.0": self.uni.genesis.blk.txs[0]}
         self.tries = 0
